@@ -28,8 +28,15 @@ package main
 //   * a method that writes its receiver (a pointer, a map, a pointer to a slice) returns it first; the call binds it back
 //     to the variable or field path it was read from — for `ctx.Getter().Method(…)`, with Getter a one-line
 //     `return c.field`, to that field of the context; such a call with one result may be used as a value.
+//   * a call of an unexported function / method of the package that is not a target (a helper a refactoring split off) is
+//     translated IN LINE (prochelper.go): as a block `(do let params := args; body)` where a value is wanted, in continuation
+//     style where it is the whole condition of an `if` whose branches jump (so that `if found(xs) { return … }` over a
+//     helper that loops and returns true is the same loop-with-return the helper was extracted from); the call graph
+//     (cycles, fuel) looks through helpers;
+//   * maps are VALUES: a write `m[k] = v` into a local variable that may alias another map (`inner := outer[k]`) is refused
+//     (it would be lost at value level), a write along a path `a[k1][k2] = v` rebinds every map on the path.
 // The translator is spread over progcore.go (types), progcore2.go (expressions, calls), progcore3.go (statements, loops),
-// progcore4.go (functions, cycles, the writer).
+// progcore4.go (functions, cycles, the writer), prochelper.go (helpers).
 
 import (
 	"fmt"
@@ -179,28 +186,31 @@ func pcInline(n pgNode) string {
 // ---- per-function context ----
 
 type pcCtx struct {
-	g        *pcGen
-	fn       *pcFn
-	info     *types.Info
-	names    map[types.Object]string
-	taken    map[string]bool
-	ntmp     *int
-	nloop    *int
-	aux      *[]string
-	ret      func(vals []string) pgNode
-	retTuple func(vals []string) string
-	retRaw   func(v string) pgNode
-	resLean  string
-	recvObj  *types.Var
-	liftTop  bool
-	loops    []pgLoopK
-	resT     *types.Tuple
-	inSwch   int
-	owned    map[types.Object]bool   // pointer variables that are owned struct values
-	ctxObj   map[types.Object]bool   // variables of type *parsley.Context
-	recRef   map[*pcFn]string        // how to refer to a member of the current cycle here
-	stateV   map[types.Object]string // inside a state-passing closure: captured variables that are assigned
-	boxed    map[types.Object]bool   // tree mode: local variables a function literal captures and assigns (cells of the store)
+	g          *pcGen
+	fn         *pcFn
+	info       *types.Info
+	names      map[types.Object]string
+	taken      map[string]bool
+	ntmp       *int
+	nloop      *int
+	aux        *[]string
+	ret        func(vals []string) pgNode
+	retTuple   func(vals []string) string
+	retRaw     func(v string) pgNode
+	resLean    string
+	recvObj    *types.Var
+	liftTop    bool
+	loops      []pgLoopK
+	resT       *types.Tuple
+	inSwch     int
+	owned      map[types.Object]bool                // pointer variables that are owned struct values
+	ctxObj     map[types.Object]bool                // variables of type *parsley.Context
+	recRef     map[*pcFn]string                     // how to refer to a member of the current cycle here
+	stateV     map[types.Object]string              // inside a state-passing closure: captured variables that are assigned
+	boxed      map[types.Object]bool                // tree mode: local variables a function literal captures and assigns (cells of the store)
+	inlining   map[*types.Func]bool                 // the helpers whose bodies are being translated in line here (prochelper.go)
+	helperBody *ast.BlockStmt                       // the body of the helper being translated in line (nil: the function itself)
+	helperK    func(at *pcCtx, res ast.Expr) pgNode // continuation-style helper (prochelper.go inlineCond): where a `return` of the helper's body goes on
 }
 
 var pcKeywords = map[string]bool{"W": true, "s_": true, "Data": true, "Node": true, "Err": true, "Cause": true, "Parser": true,
